@@ -1446,6 +1446,24 @@ func versionOracles(c *config.HardforkConfig, hs []uint64, heights []uint64) {
 
 func hardforks() {
 	n := len(hfFields())
+	// the shipped configurations and "fork disabled" (MaxUint64) variants, over the full grid
+	if n == 4 {
+		never := uint64(1<<64 - 1)
+		for _, c := range []*config.HardforkConfig{config.MainNetHardforkConfig, config.TestNetHardforkConfig, config.AllEnabledHardforkConfig,
+			mkCfg([]uint64{100, 200, 300, never}), mkCfg([]uint64{never, never, never, never}), mkCfg([]uint64{10, 20, 1 << 63, never - 1})} {
+			hs := make([]uint64, n)
+			for k, f := range hfFields() {
+				hs[k] = reflect.ValueOf(c).Elem().FieldByName(f).Uint()
+			}
+			grid := heightGrid(hs)
+			for _, h := range grid {
+				v := c.Version(h)
+				run.Op(fmt.Sprintf("ver %d %s", h, natsStr(hs)), fmt.Sprint(v), v != 0)
+			}
+			versionOracles(c, hs, grid)
+			run.Count("version-table-shipped-or-disabled")
+		}
+	}
 	for i := 0; i < run.Pick(700, 12000); i++ {
 		hs := randHeights(n, rng.Chance(3, 4))
 		c := mkCfg(hs)
@@ -1493,7 +1511,7 @@ func hardforks() {
 		case 7:
 			db = config.HardforkDbConfig{}
 		}
-		best := heightGrid(hs)[rng.Intn(len(heightGrid(hs)))]
+		best := grid[rng.Intn(len(grid))]
 		if rng.Chance(1, 4) {
 			best = uint64(rng.Intn(14))
 		}
